@@ -54,6 +54,36 @@ func backwardSliceOpt(v ssa.Value, direct bool, visit func(ssa.Value) bool) bool
 		if !ok {
 			return false
 		}
+		if ex, isEx := v.(*ssa.Extract); isEx && sliceEnterHelpers != "" {
+			// one result of a multi-result helper: only that result
+			if call, isCall := ex.Tuple.(*ssa.Call); isCall {
+				if cal := call.Call.StaticCallee(); cal != nil && cal.Blocks != nil && funcPkgPath(cal) == sliceEnterHelpers && cal.Object() != nil && !cal.Object().Exported() && depth < 40 {
+					for _, r := range returnsOf(cal) {
+						if ex.Index < len(r.Results) && rec(retValue(r, ex.Index), depth+1) {
+							return true
+						}
+					}
+					for _, a := range call.Call.Args {
+						if rec(a, depth+1) {
+							return true
+						}
+					}
+					return false
+				}
+			}
+		}
+		if call, isCall := v.(*ssa.Call); isCall && sliceEnterHelpers != "" {
+			// a helper of the named package: what it returns flows to the call's result
+			if cal := call.Call.StaticCallee(); cal != nil && cal.Blocks != nil && funcPkgPath(cal) == sliceEnterHelpers && cal.Object() != nil && !cal.Object().Exported() && depth < 40 {
+				for _, r := range returnsOf(cal) {
+					for _, res := range r.Results {
+						if rec(res, depth+1) {
+							return true
+						}
+					}
+				}
+			}
+		}
 		if call, isCall := v.(*ssa.Call); isCall && direct {
 			// library conversions (decompress, timestamp conversion ...) still carry the value;
 			// module calls compute derived values (hashes, lookups) and end the direct slice
@@ -133,3 +163,8 @@ func copiedInto(a ssa.Value, visit func(ssa.Value) bool) bool {
 	}
 	return false
 }
+
+// sliceEnterHelpers: when set to a package path, backward slices also enter the bodies of
+// unexported functions of that package through their results (used by the wire-conversion analysis, where a
+// part of an encoder or decoder may live in a helper of the conversion package).
+var sliceEnterHelpers string
